@@ -296,7 +296,26 @@ fn gen_c08(r: &mut Rng, thorough: bool) -> Vec<Op> {
         }
         let i = r.usize(l.areas.len());
         let a = l.areas[i];
-        match r.below(6) {
+        match r.below(8) {
+            6 | 7 => {
+                // a small area strictly inside one of the windows an "anywhere" search probes, then such a
+                // request: the fresh area must read as its initial contents and the small area must keep its own
+                let win = *r.pick(&[0x1000u64, 0x1000, 0x800, 0x2000]);
+                let s = 0x1000 + r.below(4) * win + r.range(1, win - 0x42);
+                let sl = r.range(1, 0x40);
+                if l.free(s, sl) {
+                    ops.push(Op::InitArea { start: s, len: sl, seed: r.next() | 1, named: false });
+                    l.add(s, sl);
+                }
+                if r.chance(1, 2) {
+                    ops.push(Op::ZeroAnywhere { len: win });
+                } else {
+                    ops.push(Op::Anywhere { len: win, seed: r.next() | 1, named: r.chance(1, 3) });
+                }
+                ops.push(Op::ReadBytes { addr: s, len: sl });
+                ops.push(Op::WriteBytes { addr: s, len: sl, seed: r.next() });
+                ops.push(Op::ReadBytes { addr: s & !0xf, len: 0x40 });
+            }
             0 => {
                 ops.push(Op::Resize { start: a.0, new_len: 0 });
                 l.areas[i].1 = 0;
